@@ -24,3 +24,236 @@ pub fn block_limit() -> Option<usize> {
         n => Some(n),
     }
 }
+
+// ------------------------------------------------------------------------------------------------
+// Controlled-scheduler seam (hooks H1/H2/H3): a harness may install a `Runtime`; threads it declares
+// controlled then ask it before every lock / condition wait / notification / yield point / sleep.
+// Without an installed runtime every shim below forwards to exactly the object the original code
+// used (parking_lot, std::thread::sleep, std::time::SystemTime).
+// ------------------------------------------------------------------------------------------------
+
+use std::sync::{Arc, RwLock};
+use std::time::Duration;
+
+pub trait Runtime: Send + Sync + 'static {
+    /// Is the calling thread under the scheduler's control?
+    fn controlled(&self) -> bool;
+    /// Blocks until the scheduler lets the calling thread take mutex `m` (which is then free).
+    fn lock(&self, m: usize);
+    fn unlock(&self, m: usize);
+    /// Called with the real mutex released; returns once notified and granted mutex `m` again.
+    fn cv_wait(&self, cv: usize, m: usize);
+    fn cv_notify(&self, cv: usize, all: bool);
+    fn yield_point(&self, label: &'static str);
+    fn sleep(&self, d: Duration);
+    fn now(&self) -> std::time::SystemTime;
+    fn thread_exit(&self);
+}
+
+static RUNTIME: RwLock<Option<Arc<dyn Runtime>>> = RwLock::new(None);
+
+pub fn install(rt: Arc<dyn Runtime>) {
+    *RUNTIME.write().unwrap() = Some(rt);
+}
+
+pub fn uninstall() {
+    *RUNTIME.write().unwrap() = None;
+}
+
+fn rt_any() -> Option<Arc<dyn Runtime>> {
+    RUNTIME.read().unwrap().clone()
+}
+
+struct ExitGuard;
+impl Drop for ExitGuard {
+    fn drop(&mut self) {
+        if let Some(rt) = rt_any() {
+            rt.thread_exit();
+        }
+    }
+}
+thread_local!(static EXIT_GUARD: ExitGuard = const { ExitGuard });
+
+/// The runtime, if one is installed and controls the calling thread. Arms the thread-exit signal
+/// (a thread-local destructor, which runs after the thread's closure and its captures are gone).
+fn rt() -> Option<Arc<dyn Runtime>> {
+    let rt = rt_any()?;
+    if rt.controlled() {
+        EXIT_GUARD.with(|_| ());
+        Some(rt)
+    } else {
+        None
+    }
+}
+
+/// A scheduling point before an access to state shared between worker threads.
+#[inline]
+pub fn yield_point(label: &'static str) {
+    if let Some(rt) = rt() {
+        rt.yield_point(label);
+    }
+}
+
+static ONDEMAND_ACKS: AtomicUsize = AtomicUsize::new(0);
+/// Counts control messages fully handled by on-demand workers (lets a harness synchronise without sleeping).
+pub fn ondemand_ack() {
+    ONDEMAND_ACKS.fetch_add(1, Ordering::SeqCst);
+}
+pub fn ondemand_acks() -> usize {
+    ONDEMAND_ACKS.load(Ordering::SeqCst)
+}
+
+pub mod sync {
+    //! `parking_lot::{Mutex, Condvar}` look-alikes (the subset the job market uses).
+    use super::{rt, rt_any};
+    use std::ops::{Deref, DerefMut};
+    use std::sync::atomic::{AtomicUsize, Ordering};
+
+    static NEXT_ID: AtomicUsize = AtomicUsize::new(1);
+
+    pub struct Mutex<T> {
+        inner: parking_lot::Mutex<T>,
+        id: usize,
+    }
+    pub struct MutexGuard<'a, T> {
+        guard: Option<parking_lot::MutexGuard<'a, T>>,
+        id: usize,
+        hooked: bool,
+    }
+    impl<T> Mutex<T> {
+        pub fn new(value: T) -> Self {
+            Mutex {
+                inner: parking_lot::Mutex::new(value),
+                id: NEXT_ID.fetch_add(1, Ordering::SeqCst),
+            }
+        }
+        pub fn lock(&self) -> MutexGuard<'_, T> {
+            let hooked = match rt() {
+                Some(rt) => {
+                    rt.lock(self.id);
+                    true
+                }
+                None => false,
+            };
+            MutexGuard {
+                guard: Some(self.inner.lock()),
+                id: self.id,
+                hooked,
+            }
+        }
+    }
+    impl<T> Drop for MutexGuard<'_, T> {
+        fn drop(&mut self) {
+            self.guard.take();
+            if self.hooked {
+                if let Some(rt) = rt_any() {
+                    rt.unlock(self.id);
+                }
+            }
+        }
+    }
+    impl<T> Deref for MutexGuard<'_, T> {
+        type Target = T;
+        fn deref(&self) -> &T {
+            self.guard.as_ref().unwrap()
+        }
+    }
+    impl<T> DerefMut for MutexGuard<'_, T> {
+        fn deref_mut(&mut self) -> &mut T {
+            self.guard.as_mut().unwrap()
+        }
+    }
+
+    pub struct Condvar {
+        inner: parking_lot::Condvar,
+        id: usize,
+    }
+    impl Default for Condvar {
+        fn default() -> Self {
+            Self::new()
+        }
+    }
+    impl Condvar {
+        pub fn new() -> Self {
+            Condvar {
+                inner: parking_lot::Condvar::new(),
+                id: NEXT_ID.fetch_add(1, Ordering::SeqCst),
+            }
+        }
+        pub fn wait<T>(&self, guard: &mut MutexGuard<'_, T>) {
+            match rt() {
+                Some(rt) if guard.hooked => {
+                    let (cv, m) = (self.id, guard.id);
+                    parking_lot::MutexGuard::unlocked(guard.guard.as_mut().unwrap(), || {
+                        rt.cv_wait(cv, m)
+                    });
+                }
+                _ => self.inner.wait(guard.guard.as_mut().unwrap()),
+            }
+        }
+        pub fn notify_all(&self) -> usize {
+            if let Some(rt) = rt_any() {
+                rt.cv_notify(self.id, true);
+            }
+            self.inner.notify_all()
+        }
+        pub fn notify_one(&self) -> bool {
+            if let Some(rt) = rt_any() {
+                rt.cv_notify(self.id, false);
+            }
+            self.inner.notify_one()
+        }
+    }
+}
+
+pub mod time {
+    //! `std::time::SystemTime::now` / `std::thread::sleep` look-alikes on the runtime's clock.
+    use super::{rt, rt_any};
+    use std::time::Duration;
+
+    pub struct SystemTime;
+    impl SystemTime {
+        #[allow(clippy::new_ret_no_self)]
+        pub fn now() -> std::time::SystemTime {
+            match rt_any() {
+                Some(rt) => rt.now(),
+                None => std::time::SystemTime::now(),
+            }
+        }
+    }
+    pub fn sleep(d: Duration) {
+        match rt() {
+            Some(rt) => rt.sleep(d),
+            None => std::thread::sleep(d),
+        }
+    }
+}
+
+/// Public face of the crate-private job market, so that a harness can drive it directly.
+pub struct JobBrokerFacade<J>(crate::job_market::JobBroker<J>);
+impl<J> Clone for JobBrokerFacade<J> {
+    fn clone(&self) -> Self {
+        JobBrokerFacade(self.0.clone())
+    }
+}
+impl<J: Send + 'static> JobBrokerFacade<J> {
+    pub fn new(thread_count: usize, close_at: Option<std::time::SystemTime>) -> Self {
+        JobBrokerFacade(crate::job_market::JobBroker::new(thread_count, close_at))
+    }
+    pub fn pop(&mut self) -> std::collections::VecDeque<J> {
+        self.0.pop()
+    }
+    pub fn push(&mut self, jobs: std::collections::VecDeque<J>) {
+        self.0.push(jobs)
+    }
+    pub fn split_and_push(&mut self, jobs: &mut std::collections::VecDeque<J>) {
+        self.0.split_and_push(jobs)
+    }
+    pub fn is_closed(&self) -> bool {
+        self.0.is_closed()
+    }
+    /// (open, open_count, sizes of the pending batches)
+    pub fn snapshot(&self) -> (bool, usize, Vec<usize>) {
+        self.0.verif_snapshot()
+    }
+}
